@@ -39,16 +39,18 @@ Sc(k, n) == [k |-> k, nullable |-> n]
 ScalarKinds == {"string", "int32", "int64", "double", "float", "bool", "datetime", "any"}
 Scalars == { Sc(k, n) : k \in ScalarKinds, n \in BOOLEAN }
 Arr(s)  == [k |-> "array", nullable |-> FALSE, items |-> s]
+Ref(n) == [k |-> "ref", to |-> n]
 PropSchemas  == { Sc(k, n) : k \in {"string", "int64", "datetime", "any", "bool"}, n \in BOOLEAN } \cup { Arr(Sc("string", FALSE)), Arr(Sc("int64", FALSE)) }
 PropSchemas2 == { Sc("string", FALSE), Sc("int32", TRUE), Sc("double", FALSE), Arr(Sc("string", FALSE)) }
 P(name, s, r) == [name |-> name, schema |-> s, req |-> r]
 Addls == { [addlK |-> ""], [addlK |-> "any"], [addlK |-> "schema", addl |-> Sc("string", FALSE)], [addlK |-> "schema", addl |-> Sc("int64", FALSE)],
-           [addlK |-> "schema", addl |-> Sc("int64", TRUE)], [addlK |-> "schema", addl |-> Sc("string", TRUE)] }
+           [addlK |-> "schema", addl |-> Sc("int64", TRUE)], [addlK |-> "schema", addl |-> Sc("string", TRUE)],
+           \* map values that are objects with optional properties (entries must not influence each other) and arrays
+           [addlK |-> "schema", addl |-> Ref("PoolC")], [addlK |-> "schema", addl |-> Ref("PoolA")], [addlK |-> "schema", addl |-> Arr(Sc("int64", FALSE))] }
 Obj(props, ad) == [k |-> "object", nullable |-> FALSE, props |-> props] @@ ad
 Objects == { Obj(<< >>, ad) : ad \in Addls }
            \cup { Obj(<< P("alpha", s, r) >>, ad) : s \in PropSchemas, r \in BOOLEAN, ad \in Addls }
            \cup { Obj(<< P("alpha", s, r), P("beta-two", s2, r2) >>, ad) : s \in PropSchemas, r \in BOOLEAN, s2 \in PropSchemas2, r2 \in BOOLEAN, ad \in Addls }
-Ref(n) == [k |-> "ref", to |-> n]
 \* pool components the harness provides: PoolA {name* : string, tag : string}, PoolB {id* : int64}, PoolC {flag : bool, when : datetime}
 MemberA == Obj(<< P("name", Sc("string", FALSE), TRUE), P("tag", Sc("string", FALSE), FALSE) >>, [addlK |-> ""])
 MemberB == Obj(<< P("id", Sc("int64", FALSE), TRUE) >>, [addlK |-> ""])
@@ -84,7 +86,12 @@ NullRefs == { Obj(<< P("owner", x, r), P("id", Sc("int64", FALSE), TRUE) >>, [ad
 Aliases == { Ref("PoolA"), Ref("PoolNames"), Obj(<< P("via", Ref("PoolAliasA"), TRUE), P("names", Ref("PoolNames"), TRUE), P("more", Ref("PoolNames"), FALSE) >>, [addlK |-> ""]),
              Arr(Ref("PoolAliasA")),
              Ref("AaAliasA"), Arr(Ref("AaAliasA")), Obj(<< P("fwd", Ref("AaAliasA"), TRUE), P("names", Ref("AaAliasNames"), FALSE) >>, [addlK |-> ""]) }
-Universe == Aliases \cup NullRefs \cup Scalars \cup { Arr(s) : s \in Scalars } \cup Objects \cup AllOfs \cup OneOfs \cup Nested
+\* the OpenAPI 3.0 idiom for a nullable reference: nullable next to an allOf with the $ref as its only member
+\* (as a property, as items, as a component of its own), and the same without nullable
+OneRef(n, nl) == [k |-> "allOf", nullable |-> nl, of |-> << Ref(n) >>]
+NullableRefIdiom == { Obj(<< P("owner", OneRef("PoolA", nl), r), P("id", Sc("int64", FALSE), TRUE) >>, [addlK |-> ""]) : nl \in BOOLEAN, r \in BOOLEAN }
+                    \cup { OneRef("PoolA", nl) : nl \in BOOLEAN } \cup { Arr(OneRef("PoolB", TRUE)) }
+Universe == NullableRefIdiom \cup Aliases \cup NullRefs \cup Scalars \cup { Arr(s) : s \in Scalars } \cup Objects \cup AllOfs \cup OneOfs \cup Nested
 
 EmitSchema(s) == st = "pick" /\ Emit /\ PrintT(ToJson([schema |-> s])) /\ UNCHANGED vars
 
